@@ -584,3 +584,84 @@ func rulePU5b() Rule {
 			}
 		}}
 }
+
+// ---------------------------------------------------------------------------
+// QB1: the quoting characters are handed to the quote scanner unconditionally.
+
+func ruleQB1() Rule {
+	return Rule{ID: "QB1", Kind: "must", Floor: 3,
+		Doc: "wherever a word scanner of the lexer has a case for the single-quote that hands the character to the quote scanner (a bare word, an arithmetic expression, the word of ${parameter<op>word}), that hand-over is the clause's business on every path: no condition - a depth counter, a flag, the operator of the expansion - lets a quoting character through as text. Whether a quote quotes is decided by the scanner that is running (inside double-quotes scanQuote has no such case), not by state consulted in the clause: a test there is right for some operators and wrong for others (XCU 2.6.2: quoting inside the braces of a pattern-removal expansion counts even within double-quotes)",
+		Run: func(c *Ctx, rr *core.RuleResult) {
+			quote := c.mustFn(rr, "parser.(*lexer).scanQuote")
+			if quote == nil {
+				return
+			}
+			for _, f := range c.funcsOfPkg("parser", false) {
+				if f.Decl == nil {
+					continue
+				}
+				info := f.Info()
+				n := 0
+				for _, sw := range switches(c.P, f) {
+					cl := sw.clauseFor('\'')
+					if cl == nil {
+						continue
+					}
+					// the hand-over: a call of the quote scanner, or of a helper that is given the character
+					var hand *ast.CallExpr
+					for _, st := range cl.cc.Body {
+						ast.Inspect(st, func(x ast.Node) bool {
+							call, ok := x.(*ast.CallExpr)
+							if !ok || hand != nil {
+								return hand == nil
+							}
+							fo := core.StaticCallee(info, call)
+							if fo == nil {
+								return true
+							}
+							k := c.P.FuncOf(fo)
+							if c.effective(k) == c.effective(quote) {
+								hand = call
+							} else if k != nil && k.Pkg == f.Pkg && k.Body != nil && sw.tagObj != nil && len(c.callsTo(k, quote)) > 0 {
+								for _, a := range call.Args {
+									if id, isID := ast.Unparen(a).(*ast.Ident); isID && info.Uses[id] == sw.tagObj {
+										hand = call
+									}
+								}
+							}
+							return hand == nil
+						})
+					}
+					if hand == nil {
+						continue
+					}
+					n++
+					key := fmt.Sprintf("%s|quote clause #%d", f.Name, n)
+					bypass := token.NoPos
+					// nothing conditional between the beginning of the clause and the hand-over
+					if gds := guardsOf(c.P, hand, cl.cc); len(gds) > 0 {
+						bypass = gds[0].cond.Pos()
+					}
+					for _, st := range cl.cc.Body {
+						if st.End() > hand.Pos() {
+							break // the statement of the hand-over itself, and what follows it
+						}
+						ast.Inspect(st, func(x ast.Node) bool {
+							switch x.(type) {
+							case *ast.BranchStmt, *ast.ReturnStmt:
+								if bypass == token.NoPos {
+									bypass = x.Pos()
+								}
+							}
+							return true
+						})
+					}
+					if bypass == token.NoPos {
+						rr.OK(f, key, hand.Pos(), "unconditional", "every quoting character of this context reaches the quote scanner")
+					} else {
+						rr.Bad(f, key, bypass, "a quoting character can leave this clause without having been handed to the quote scanner: whether a quote quotes depends on state tested here, which is right for some forms of the construct and wrong for others (`\"${x#'*'}\"` must keep the quoted star)")
+					}
+				}
+			}
+		}}
+}
